@@ -120,7 +120,7 @@ impl AsmBuilder for FuelAsmBuilder<'_, '_> {
                 self.globals_section.insert(name, size_in_bytes);
                 let global = self.globals_section.get_by_name(name).unwrap();
 
-                let (decode_fn_label, _) = self.func_label_map.get(&decode_fn.get()).unwrap();
+                let (decode_fn_label, _) = *self.func_label_map.get(&decode_fn.get()).unwrap();
                 let dataid = self.data_section.insert_data_value(Entry::new_byte_array(
                     encoded_bytes.clone(),
                     EntryName::Configurable(name.clone()),
@@ -136,30 +136,39 @@ impl AsmBuilder for FuelAsmBuilder<'_, '_> {
                     owning_span: None,
                 });
 
-                self.before_entries.push(Op {
-                    opcode: Either::Left(VirtualOp::ADDI(
-                        VirtualRegister::Constant(ConstantRegister::FuncArg1),
-                        VirtualRegister::Constant(ConstantRegister::Zero),
-                        VirtualImmediate12::new(encoded_bytes.len() as u64),
-                    )),
-                    comment: format!("get length of configurable {name} default value"),
-                    owning_span: None,
-                });
+                // The encoded length and the offset in the globals section are not bounded by
+                // 12 bits, so let `immediate_to_reg` pick ADDI, MOVI + ADD or a data section load.
+                // It appends to `cur_bytecode`, while these ops belong to `before_entries`.
+                let global_offset_in_bytes = global.offset_in_bytes;
+                let cur_bytecode = std::mem::replace(
+                    &mut self.cur_bytecode,
+                    std::mem::take(&mut self.before_entries),
+                );
 
-                self.before_entries.push(Op {
-                    opcode: Either::Left(VirtualOp::ADDI(
-                        VirtualRegister::Constant(ConstantRegister::FuncArg2),
-                        VirtualRegister::Constant(ConstantRegister::StackStartPointer),
-                        VirtualImmediate12::new(global.offset_in_bytes),
+                self.immediate_to_reg(
+                    encoded_bytes.len() as u64,
+                    VirtualRegister::Constant(ConstantRegister::FuncArg1),
+                    Some(&VirtualRegister::Constant(ConstantRegister::Zero)),
+                    format!("get length of configurable {name} default value"),
+                    None,
+                );
+
+                self.immediate_to_reg(
+                    global_offset_in_bytes,
+                    VirtualRegister::Constant(ConstantRegister::FuncArg2),
+                    Some(&VirtualRegister::Constant(
+                        ConstantRegister::StackStartPointer,
                     )),
-                    comment: format!("get pointer to configurable {name} stack address"),
-                    owning_span: None,
-                });
+                    format!("get pointer to configurable {name} stack address"),
+                    None,
+                );
+
+                self.before_entries = std::mem::replace(&mut self.cur_bytecode, cur_bytecode);
 
                 // call decode
                 self.before_entries.push(Op {
                     opcode: Either::Right(crate::asm_lang::ControlFlowOp::Jump {
-                        to: *decode_fn_label,
+                        to: decode_fn_label,
                         type_: JumpType::Call,
                     }),
                     comment: format!("decode configurable {name}"),
@@ -1446,15 +1455,18 @@ impl<'ir, 'eng> FuelAsmBuilder<'ir, 'eng> {
 
         // if configurable is at the global_section, it is v1
         if let Some(g) = self.globals_section.get_by_name(name) {
-            self.cur_bytecode.push(Op {
-                opcode: either::Either::Left(VirtualOp::ADDI(
-                    addr_reg.clone(),
-                    VirtualRegister::Constant(ConstantRegister::StackStartPointer),
-                    VirtualImmediate12::new(g.offset_in_bytes),
+            // The offset in the globals section is not bounded by 12 bits.
+            let offset_in_bytes = g.offset_in_bytes;
+            let owning_span = self.md_mgr.val_to_span(self.context, *addr_val);
+            self.immediate_to_reg(
+                offset_in_bytes,
+                addr_reg.clone(),
+                Some(&VirtualRegister::Constant(
+                    ConstantRegister::StackStartPointer,
                 )),
-                comment: format!("get address of configurable {name}"),
-                owning_span: self.md_mgr.val_to_span(self.context, *addr_val),
-            });
+                format!("get address of configurable {name}"),
+                owning_span,
+            );
             self.reg_map.insert(*addr_val, addr_reg);
         } else {
             // Otherwise it is a configurable with encoding v0 and must be at configurable_v0_data_id
